@@ -70,6 +70,10 @@ def gen_plan(seed, tier):
     p = params_for(name, r, D) or ({} if one_d else p)
     if one_d:
       p = {k: v for k, v in p.items() if k not in ("n_components", "init", "prior", "basis", "n_basis", "k")}
+  if int_store is None and desc.get("kind", "blobs") == "blobs" and r.random() < 0.2:
+    # a table in which some rows hold whole numbers: a callable store over it
+    # answers with an integer array when only such rows are asked for
+    desc = dict(desc, int_rows=r.choice([0.3, 0.6]))
   fault_run = r.random() < 0.45
   pre = "store" if fault_run else r.choice(["store", "ndarray", "list"])
   ops = []
@@ -272,7 +276,7 @@ def run_plan(plan):
   pb = {k: copy.deepcopy(v) for k, v in pa.items()}
   store = None
   if plan["pre"] == "store":
-    store = world.PointStore(D.S.copy())
+    store = world.PointStore(D.S.copy(), mixed=bool(plan["dataset"].get("int_rows")))
     pre = store
   elif plan["pre"] == "ndarray":
     pre = D.S.copy()
